@@ -41,6 +41,7 @@ func runC09(c *Ctx, r *Report) {
 	r.Rule("C09.R2", "depth guard: State.Eval compares depth with MaxDepth before incrementing, panics beyond it and decrements after evaluating; applyFunction evaluates the callee body through Eval; every other recursive cycle reachable from program text (static calls and interface invokes, Eval removed) is enumerated: each is bounded only by source or data nesting, is a known finding, and a new one is a violation")
 	r.Rule("C09.R3", "program-bounded loops: a Go loop in the evaluator whose trip count derives from a program integer re-enters the evaluator (context check) on every iteration, or its trip count is bounded by a size that passed the memory guard")
 	r.Rule("C09.R4", "guarded allocation: make / strings.Repeat / string concatenation sized by program values is dominated by the memory guard on that size; a guarded size that is a product of program values is protected against overflow; SizeOk rejects negative sizes")
+	r.Rule("C09.R6", "live figures: the value object.FreeMemory returns is computed from a debug.SetMemoryLimit(-1) query and a runtime.ReadMemStats reading made by that very call, and from no package-level variable")
 	r.Rule("C09.R5", "recovery: EvalOne defers a recover that resets the state, installs a per-input context from MaxDuration and defers its cancel; the wasm entry passes a depth and a duration limit")
 
 	stateT := c.TypeNamed("eval", "State")
@@ -475,6 +476,69 @@ func (c *Ctx) checkProgramLoopsAndAllocs(r *Report) {
 		})
 		r.Check(okNeg, "C09.R4", ssaFuncName(sz), "SizeOk rejects negative sizes", c.Pos(sz.Pos()), "SizeOk answers true for every n <= 256 including negative n (an overflowed size): the guard is bypassed")
 		nAllocs++
+	}
+	// R6: the guard reads live figures
+	{
+		fm := c.SSAFn(c.Fn("object", "FreeMemory"))
+		fname := ssaFuncName(fm)
+		var limitCall, statsCall bool
+		var globals []string
+		seen := map[ssa.Value]bool{}
+		var slice func(v ssa.Value)
+		slice = func(v ssa.Value) {
+			if v == nil || seen[v] {
+				return
+			}
+			seen[v] = true
+			switch x := v.(type) {
+			case *ssa.Global:
+				globals = append(globals, x.Name())
+				return
+			case *ssa.Call:
+				if obj := calleeObj(x); obj != nil && obj.Pkg() != nil {
+					if obj.Pkg().Path() == "runtime/debug" && obj.Name() == "SetMemoryLimit" {
+						if k, ok := constInt(x.Common().Args[0]); ok && k < 0 {
+							limitCall = true
+						}
+					}
+				}
+			case *ssa.Alloc:
+				for _, ref := range *x.Referrers() {
+					if call, ok := ref.(*ssa.Call); ok {
+						if obj := calleeObj(call); obj != nil && obj.Pkg() != nil && obj.Pkg().Path() == "runtime" && obj.Name() == "ReadMemStats" {
+							statsCall = true
+						}
+					}
+					if st, ok := ref.(*ssa.Store); ok && st.Addr == ssa.Value(x) {
+						slice(st.Val)
+					}
+				}
+			}
+			if in, ok := v.(ssa.Instruction); ok {
+				for _, op := range in.Operands(nil) {
+					if *op != nil {
+						slice(*op)
+					}
+				}
+			}
+		}
+		nRet := 0
+		eachInstr(fm, func(in ssa.Instruction) {
+			if ret, ok := in.(*ssa.Return); ok {
+				nRet++
+				for i := range ret.Results {
+					slice(retVal(ret, i))
+				}
+			}
+		})
+		r.Check(nRet > 0 && limitCall, "C09.R6", fname, "the limit is queried (debug.SetMemoryLimit(-1)) on every call", c.Pos(fm.Pos()),
+			"the value FreeMemory returns does not depend on a debug.SetMemoryLimit(<0) query made by this call: a limit set after start-up (the wasm entry point sets one in main) is not seen and every size passes the guard")
+		r.Check(nRet > 0 && statsCall, "C09.R6", fname, "the heap in use is read (runtime.ReadMemStats) on every call", c.Pos(fm.Pos()),
+			"the value FreeMemory returns does not depend on memory statistics read by this call")
+		sort.Strings(globals)
+		r.Check(len(globals) == 0, "C09.R6", fname, "no memoised figure", c.Pos(fm.Pos()),
+			"the value FreeMemory returns depends on package-level state ("+strings.Join(globals, ", ")+"): a figure captured earlier stands in for the live one")
+		r.Floor("C09.R6", 3)
 	}
 	if nLoops < 2 {
 		r.Undecided("C09.R3: only %d program-bounded loops found", nLoops)
